@@ -152,6 +152,8 @@ class Array:
 
     def _set_dtype(self, new_dtype: Union[str, Dtype]) -> None:
         if isinstance(new_dtype, Dtype):
+            if new_dtype.length is None or new_dtype.length == 0:
+                raise ValueError(f"A fixed, non-zero length format is needed for an Array, received '{new_dtype}'.")
             self._dtype = new_dtype
         else:
             try:
